@@ -126,3 +126,19 @@ package oidc
 //@   invariant allocated: forall a string :: mapHas(m.sessions, a) ==> m.sessions[a] <= watermark()
 //@   view View: MemView(m, sid)
 //@   private mapof(m.sessions), heap session.tokenResponse, heap session.authorizationState, heap session.added, heap session.accessed, ghost $held[addr(m.mu)], ghost Clk
+
+// ---------------------------------------------------------------------------------------------
+// DefaultJWKSProvider implements JWKSProvider (C02): the key set handed to the handler is the one
+// of the very configuration it is asked for.
+// ---------------------------------------------------------------------------------------------
+
+//@ impl (*DefaultJWKSProvider) JWKSProvider (j, k)
+//@   requires wf: j != nil && j.log != nil
+
+//@ func (*DefaultJWKSProvider).fetchStatic
+//@   requires wf: j != nil && j.log != nil
+//@   ensures  parsed: result1 == nil ==> result0 != nil && result0 == JwkParsed(raw)
+
+//@ func (*DefaultJWKSProvider).fetchDynamic
+//@   abstractbody
+//@   ensures  fetched: result1 == nil ==> result0 != nil && JwksFetched(config.GetJwksFetcher().JwksUri, result0)
